@@ -231,18 +231,31 @@ def aff_cmp(a, b):
     return d.sign()
 
 
-def aff_min(a, b):
-    s = aff_cmp(a, b)
-    if s is None:
+def aff_le(a, b):
+    """a <= b for all admissible symbol values (True) / unknown (None)"""
+    a, b = aff(a), aff(b)
+    if a is None or b is None:
         return None
-    return aff(a) if s <= 0 else aff(b)
+    s = (b - a).sign()
+    if s is not None:
+        return s >= 0
+    return True if (b - a).nonneg() else None
+
+
+def aff_min(a, b):
+    if aff_le(a, b):
+        return aff(a)
+    if aff_le(b, a):
+        return aff(b)
+    return None
 
 
 def aff_max(a, b):
-    s = aff_cmp(a, b)
-    if s is None:
-        return None
-    return aff(a) if s >= 0 else aff(b)
+    if aff_le(a, b):
+        return aff(b)
+    if aff_le(b, a):
+        return aff(a)
+    return None
 
 
 # ----------------------------------------------------------------------------- NFFT as a number
